@@ -843,6 +843,14 @@ func FamClosures[T any](c Codec[T], stream bool, chunk int, seed int64, n int) S
 		pcancel()
 		rec.Calls = append(rec.Calls, SysCall{Tag: 487, From: "A", Method: "IterCount", Ret: v, Err: errText(err), Done: true})
 	}
+	// an invocation made with a context that is already cancelled fails with that context's error - that
+	// invocation only: the next one, with a live context, gets its result, the link stays up
+	{
+		pctx, pcancel := context.WithTimeout(ctx, 5*time.Second)
+		v, err := p.ra.IterPreCancelled(pctx, 485, func(ctx context.Context, x int) (int, error) { return x * 11, nil })
+		pcancel()
+		rec.Calls = append(rec.Calls, SysCall{Tag: 485, From: "A", Method: "IterPreCancelled", Ret: v, Err: errText(err), Done: true})
+	}
 	// ... whose parameter is a list of lists, one of them nil (null on the wire)
 	{
 		pctx, pcancel := context.WithTimeout(ctx, 5*time.Second)
